@@ -27,9 +27,9 @@ from . import c13
 
 DOC_CLAUSES = {"ClauseBracesBalanced", "ClauseSinglePicture", "ClauseStatementsTerminated",
                "ClauseColoursDefinedBeforePicture", "ClauseUnknownToken", "ClauseEscape", "ClauseLabelContent",
-               "ClauseLabelOmittedOnlyWhenEqualToParent", "ClauseWrapKeepsWords", "ClauseWrapWidth",
+               "ClauseLabelOmittedOnlyWhenEqualToParent", "ClauseLabelWrap", "ClauseWrapKeepsWords", "ClauseWrapWidth",
                "ClauseWrapNoMoreLinesThanGreedy", "ClauseLeafNameEscaped"}
-COLOUR_CLAUSES = {"ClauseColourScope"}
+COLOUR_CLAUSES = {"ClauseColourScope", "ClauseLossColourScope"}
 HTML = ["ff0000", "00aa00", "0000ff", "ff8800", "008888"]
 NAME_CHARS = "abXY01_\\"
 
@@ -126,7 +126,24 @@ def drawing_events(A, inp, m, fam, lab, seed):
     events, losses, arrows, problems = rc.locate_tikz(A, lay, parsed, onodes, snodes, params)
     drawn = [[n["gene"], n["color"]] for n in parsed["nodes"] if n.get("gene")]
     col = [colours.get(u, "") for u in range(1, len(ot) + 1)]
-    colour_events = [dict(base, op="colours", col=col, drawn=drawn, default="000000", problems=problems[:2])]
+    # loss markers: follow the kept copy down to the object node below the lost edge
+    oidx0 = {n: i for i, n in enumerate(onodes, start=1)}
+    where = {}
+    for snode in snodes:
+        for gene, br in lay[snode].branches.items():
+            where[gene] = br
+    loss_cols = []
+    for gene, br in where.items():
+        if rc.KIND[br.kind.name] != "X":
+            continue
+        below = br.left if br.left is not None else br.right
+        while below is not None and below not in oidx0:
+            nxt = where.get(below)
+            below = None if nxt is None else (nxt.left if nxt.left is not None else nxt.right)
+        if below is not None:
+            loss_cols.append([oidx0[below], br.color])
+    colour_events = [dict(base, op="colours", col=col, drawn=drawn, losses=loss_cols, default="000000",
+                          problems=problems[:2])]
     if fam == "dtl":   # extant objects are labelled <species>\\textsubscript{<id>}
         oidx = {n: i for i, n in enumerate(onodes, start=1)}
         for snode in snodes:
@@ -145,7 +162,8 @@ def drawing_events(A, inp, m, fam, lab, seed):
                 parent = ot[u - 1]
                 same = parent != 0 and sol["lab"][u - 1] == sol["lab"][parent - 1]
                 doc_events.append(dict(base, op="label", leaf=leaf, has=True, same_as_parent=bool(same),
-                                       fams=[codes(fam_names[f]) for f in sol["lab"][u - 1]], shown=codes(br.name)))
+                                       fams=[codes(fam_names[f]) for f in sol["lab"][u - 1]], shown=codes(br.name),
+                                       width=width))
     return doc_events, colour_events
 
 
